@@ -352,10 +352,10 @@ def runLine (st : Session) (line : String) : Session × String := Id.run do
     | none => return (st, "bad-slot")
     | some s =>
       -- the value's kind is that of the sub-timeline's frames (an empty sub-timeline ignores the call)
-      let v : Val F := match s.frames.head? with
-        | some ⟨_, .int k _, _⟩ => .int k w[2]!.toInt!
-        | _ => .num (fb w[2]!)
-      return ({ st with subs := st.subs.insert w[1]!.toNat! (s.overrideStart v) }, "ok")
+      match s.frames.head? with
+      | none => return (st, "ok")
+      | some ⟨_, .int k _, _⟩ => return ({ st with subs := st.subs.insert w[1]!.toNat! (s.overrideStart (.int k w[2]!.toInt!)) }, "ok")
+      | some _ => return ({ st with subs := st.subs.insert w[1]!.toNat! (s.overrideStart (.num (fb w[2]!))) }, "ok")
   | "subat" =>
     match st.subs.get? w[1]!.toNat! with
     | none => return (st, "bad-slot")
